@@ -293,6 +293,30 @@ def _note_array_and_tracks(b, rng):
                 same = all(m["midi_pitch"] == n["midi_pitch"] and m["velocity"] == n["velocity"] and abs(m["note_on"] - n["note_on"]) < 1e-5 * (1 + abs(n["note_on"]))
                            and abs(m["sound_off"] - n["sound_off"]) < 1e-5 * (1 + abs(n["sound_off"])) for m, n in zip(back.notes, part.notes)) and len(back.notes) == len(part.notes)
                 b.case("note_array/rebuilt_part_same_pitches_velocities_onsets_sounding_ends", same, case, "round trip through the note array differs")
+    # a part whose leading silence is cut away (first_note_at_zero): afterwards its notes still sound as ITS pedal stream dictates, and
+    # setting the threshold again changes nothing
+    from partitura.utils.music import remove_silence_from_performed_part
+    for pname, notes, ctl in (("pedal_pressed_in_the_silence_and_moved_later", [(60, 1.0, 1.5), (64, 1.5, 2.25), (67, 3.0, 3.5)], [(64, 0.2, 127), (64, 2.0, 0), (64, 2.75, 100), (64, 4.0, 0)]),
+                              ("pedal_pressed_and_lifted_in_the_silence", [(60, 1.0, 1.5), (64, 1.5, 2.25)], [(64, 0.2, 127), (64, 0.6, 0), (64, 2.0, 90), (64, 3.0, 0)]),
+                              ("soft_pedal_in_the_silence_sustain_later", [(60, 0.5, 1.0), (62, 1.0, 2.5)], [(67, 0.1, 80), (64, 0.75, 127), (64, 2.0, 0)])):
+        for thr in (64, 20, 110):
+            case = {"leading_silence_removed": pname, "threshold": thr}
+            def run():
+                pp_ = _mk_part(notes, ctl, thr)
+                remove_silence_from_performed_part(pp_)
+                return pp_
+            ok, pp_ = b.guard("pedal/never_fails_on_valid_notes", case, run)
+            if not ok:
+                continue
+            n2 = [(n["midi_pitch"], float(n["note_on"]), float(n["note_off"])) for n in pp_.notes]
+            c2 = [(c["number"], float(c["time"]), c["value"]) for c in pp_.controls]
+            got = [float(n["sound_off"]) for n in pp_.notes]
+            want = ref_sound_off(n2, c2, thr)
+            good = abs(min(x[1] for x in n2)) < 1e-9 and all(any(abs(g - w) < 1e-6 for w in ws) for g, ws in zip(got, want))
+            b.case("pedal/sounding_end_follows_the_parts_own_pedal_stream", good, case, "after the silence was removed: notes %r, pedal stream %r, sounding ends %r, the stream dictates %r" % (n2, c2, got, [sorted(w) for w in want]))
+            pp_.sustain_pedal_threshold = thr
+            again = [float(n["sound_off"]) for n in pp_.notes]
+            b.case("pedal/setter_recomputes", all(abs(a_ - g_) < 1e-6 for a_, g_ in zip(again, got)), case, "setting the same threshold again changed the sounding ends from %r to %r" % (got, again))
     # notes handed in as other mapping types that ARE dicts (ordered, with defaults, a user's subclass) build the same part as plain dicts
     import collections
 
